@@ -13,6 +13,7 @@ CONSTANTS
   Burst = 3
   StoreCap = 4
   EntryBurst = 0
+  BigQs = {}
   MaxOps = 100000
   MaxPend = 8
   MaxAge = 2
@@ -24,9 +25,10 @@ CONSTANTS
   EchoCached = FALSE
   ReuseEvicted = FALSE
   SharedKey = FALSE
+  ChargeBeforeFit = FALSE
 SPECIFICATION TraceSpec
 INVARIANTS TypeOK OneChargePerQuestion DropIsSilent ClientWithinBudget NoSharedBucket RememberedIsOwn ExemptNeverLimited
-  ReplyCookieIsOwn AnswerCarriesCookie BadCookieSound VerifiedIsFree HandoffOnlyInline
+  ReplyCookieIsOwn AnswerCarriesCookie BadCookieSound VerifiedIsFree HandoffOnlyInline SameOutcomeAcrossEntries
 CONSTRAINT HighWater
 POSTCONDITION TraceAccepted
 CHECK_DEADLOCK FALSE
